@@ -868,12 +868,30 @@ class _FoldConst(ast.NodeTransformer):
 def _unroll_const_loops(fn, seqs):
     """`for NAME in ('a', 'b', ...): body` (a literal tuple/list of string constants, or the fields of a module-level
     namedtuple) is the body repeated with NAME replaced by each constant."""
+    # local names bound once to a literal sequence (`formats = ('a', 'b')`) and never touched again
+    lit = {}
+    cnt = {}
+    for n in ast.walk(fn):
+        if isinstance(n, ast.Name) and isinstance(n.ctx, (ast.Store, ast.Del)):
+            cnt[n.id] = cnt.get(n.id, 0) + 1
+    for n in ast.walk(fn):
+        if isinstance(n, ast.Assign) and len(n.targets) == 1 and isinstance(n.targets[0], ast.Name) and isinstance(n.value, (ast.Tuple, ast.List)) \
+                and cnt.get(n.targets[0].id) == 1 and n.targets[0].id not in {a.arg for a in fn.args.args}:
+            nm_ = n.targets[0].id
+            lit[nm_] = n.value
+
     def simple(e):
         return isinstance(e, ast.Constant) or (isinstance(e, ast.Attribute) and simple(e.value)) or isinstance(e, ast.Name) \
             or (isinstance(e, ast.UnaryOp) and simple(e.operand))
 
     def seq_of(it, target):
         """list of {target name: AST value} environments, one per iteration, or None"""
+        if isinstance(it, ast.Name) and it.id in lit:
+            # only when every use of the name is as the sequence of a for loop (it is not handed out or mutated)
+            uses = [x for x in ast.walk(fn) if isinstance(x, ast.Name) and x.id == it.id and isinstance(x.ctx, ast.Load)]
+            fors = [f_ for f_ in ast.walk(fn) if isinstance(f_, ast.For) and isinstance(f_.iter, ast.Name) and f_.iter.id == it.id]
+            if len(uses) == len(fors):
+                it = lit[it.id]
         if isinstance(target, ast.Name):
             if isinstance(it, (ast.Tuple, ast.List)) and it.elts and all(isinstance(e, ast.Constant) and isinstance(e.value, str) for e in it.elts):
                 return [{target.id: e} for e in it.elts]
@@ -905,12 +923,14 @@ def _unroll_const_loops(fn, seqs):
                 body_ok = vals is not None and len(vals) <= 40 and not _has(ast.Module(body=st.body, type_ignores=[]), (ast.Break, ast.Continue)) \
                     and not (tnames & _stored_names(st.body))
                 if body_ok:
-                    for v in vals:
+                    for kk, v in enumerate(vals):
                         for b in st.body:
                             nb = _Subst({k_: copy.deepcopy(e_) for k_, e_ in v.items()}).visit(copy.deepcopy(b))
                             nb = _FoldConst().visit(nb)
                             for n in ast.walk(nb):
                                 if hasattr(n, 'lineno'):
+                                    # all copies sit on the loop's line; the column keeps them in iteration order
+                                    n.col_offset = 10000 * (kk + 1) + 100 * (n.lineno - st.lineno) + min(getattr(n, 'col_offset', 0), 99)
                                     n.lineno = st.lineno
                                     n.end_lineno = getattr(st, 'end_lineno', st.lineno)
                             out.append(nb)
